@@ -213,6 +213,28 @@ def gen(chk, tier):
             cls = "e_first_sum_ge_2n" if e_ + xr >= 2 * N else "e_first"
             verify(cls + "_valid", b32(Ppt[0]), b32(Ppt[1]), b32(e_), b32(r_), b32(s_))
             verify(cls + "_r_plus_1", b32(Ppt[0]), b32(Ppt[1]), b32(e_), b32((r_ + 1) % N), b32(s_))
+    # an INVALID public key presented repeatedly with a triple that would verify if the key were the point at infinity
+    # (R = [s]G + [t]O = [s]G, so r = (e + x([s]G)) mod n): whatever a first refusal leaves behind (a cache entry, a
+    # placeholder) must not make the second or third presentation succeed
+    for _ in range(3 if q else 30):
+        s_ = rscalar(rng)
+        e_ = rng.getrandbits(256)
+        xs = ec.mul(s_)[0]
+        r_ = (e_ + xs) % N
+        if r_ == 0 or (r_ + s_) % N == 0:
+            continue
+        good = ec.mul(rscalar(rng))
+        bads = [(b32(good[0]), b32(good[1] ^ 1)), (b32(0), b32(0)), (b32(good[0] + 1), b32(good[1])),
+                (b32(good[1]), b32(good[0]))]
+        for (bx, by) in bads:
+            k = g.scenario("invalid_key_repeated_forged_for_infinity")
+            for rep in range(3):
+                g.add(k, "sm2.verify", kind="hashed", pubx=list(bx), puby=list(by), e=b32(e_), r=b32(r_), s=b32(s_))
+            # and a valid key after the refusals: still judged on its own
+            s2, t2 = rscalar(rng), rscalar(rng)
+            pt, e2, r2, R2 = forged(good, s2, t2)
+            if r2 and R2 is not None:
+                g.add(k, "sm2.verify", kind="hashed", pubx=b32(pt[0]), puby=b32(pt[1]), e=b32(e2), r=b32(r2), s=b32(s2))
     # public key classes: non-canonical coordinate (x + p), off curve, zero point, (0, sqrt b)
     x = 0
     found = []
